@@ -12,7 +12,7 @@ from vf import common, x86space
 PROPERTY = 'C10'
 RULE = ('bytes: every opcode cell (1-byte, 0F, 0F38, 0F3A maps) x all 256 ModRM values x SIB classes x filler classes, with no prefix, '
         'each single prefix, and prefix pairs (no "both decoders accept" filter), plus seeded random strings up to 16 bytes; for every '
-        'accepted string also every truncation, the exact-length prefix and a decode from a stream at offsets 1/7/4096. text: every '
+        'accepted string also every truncation, the exact-length prefix, a decode from a stream at offsets 1/7/4096, and the same through a file-object stream and a virtual-memory stream. text: every '
         'line "<mnemonic> t1 t2 [t3]" over a lexical alphabet of ~45 tokens (registers of every file, size keywords, punctuation, numbers '
         'at width boundaries, a symbol) for 14 mnemonics in both syntaxes, plus token deletions/duplications/swaps of well-formed lines. '
         'A case = the byte string or the text line (+syntax); non-trivial = the decoder accepted the bytes / the assembler returned or '
@@ -130,6 +130,32 @@ def check_bytes(sh, b, cls=None, deep=True):
         sh.evaluations += 1
         if it is not None:
             sh.violation('stream/truncated-accepted/%s' % ins.m.name, 'dis(%s) has l=%d but its %d-byte prefix is accepted as %s' % (b.hex(), l, k, it), wit)
+    # the other stream kinds of the library: a file object and a virtual address space (callable with a length); the whole
+    # instruction, every truncation, and a decode at an offset
+    import io
+    from miasmx.core.bin_stream import bin_stream
+
+    class _Virt(object):
+        def __init__(self, data):
+            self.data = data
+
+        def __len__(self):
+            return len(self.data)
+
+        def __call__(self, start, stop, section=None):
+            return self.data[start:stop]
+    for kind, mk in (('file', lambda d, o: bin_stream(io.BytesIO(d), o)), ('virt', lambda d, o: bin_stream(_Virt(d), o))):
+        for data, off, expect in [(b[:l], 0, True)] + [(b[:k], 0, False) for k in range(1, l)] + [(b'\x90' * 5 + b[:l], 5, True), (b'\x90' * 5 + b[:max(1, l - 1)], 5, l == 1)]:
+            try:
+                i4 = x86mnemo.dis(mk(data, off))
+            except Exception as e:
+                sh.violation(exc_key('stream-' + kind, e, sys.exc_info()[2]), 'dis from a %s stream of %s (offset %d) raised %r' % (kind, data.hex(), off, e), dict(wit, stream=kind))
+                continue
+            sh.evaluations += 1
+            if expect and (i4 is None or i4.l != l):
+                sh.violation('stream/%s-stream-decode-differs' % kind, 'dis(%s) accepted with l=%d but from a %s stream: %s' % (b.hex(), l, kind, 'None' if i4 is None else i4.l), dict(wit, stream=kind))
+            if not expect and i4 is not None:
+                sh.violation('stream/truncated-accepted/%s' % ins.m.name, 'dis(%s) has l=%d but a truncated %s stream is accepted' % (b.hex(), l, kind), dict(wit, stream=kind))
     # decode at a stream offset
     for off in (1, 7, 4096):
         pad = bytes((i * 37 + 11) & 0xff for i in range(off))
